@@ -89,6 +89,13 @@ func (m *MethodEvaluator) errorResolve() error {
 			break
 		}
 
+		// the closing bracket of an enclosing literal or argument list is not
+		// part of the failed call: leave it to whoever opened it
+		if nextT.IsTargetIdentifiers([]string{")", "]", "}"}) {
+			m.parser.Unget()
+			break
+		}
+
 		err = m.outerEval.Eval(m.parser, m.ctx, nextT)
 		if err != nil {
 			return err
